@@ -8,6 +8,7 @@ CONSTANTS Nib = {0, 1, 15}
           SeqBatches = FALSE
           Depth = 0
           NBatch = 0
+          NKeys = 4
           BOps <- OpsPool
           BatchLens = {4}
           BatchSet <- MCBatchSet
